@@ -9,6 +9,13 @@ use vstd::prelude::*;
 use std::ops::Range;
 use std::sync::Arc;
 //@@ INCLUDE _common/error_macros.rs
+// R4: pdf/src/primitive.rs `unexpected_primitive!`: same control flow (evaluates to Err(UnexpectedPrimitive{..}));
+// `stringify!($expected)` is replaced by a fixed string (payload text, R3)
+macro_rules! unexpected_primitive {
+    ($expected:ident, $found:expr) => (
+        Err(PdfError::UnexpectedPrimitive { expected: "", found: $found })
+    )
+}
 verus! {
 global size_of usize == 8;
 
@@ -891,9 +898,6 @@ pub proof fn lemma_name_dec_plain(s: Seq<u8>)
         assert(s + Seq::<u8>::empty() =~= s);
     }
 }
-/// the key of a dictionary entry is a name (7.3.7): the same decoding applies
-pub open spec fn key_dec(s: Seq<u8>) -> Option<Seq<u8>> {
-    if DEV_DICT_KEY_NOT_DECODED() { Some(s) } else { name_dec(s) }
 }
 
 // 7.3.4.2 literal strings: the value is the sequence of lexemes up to the closing parenthesis
@@ -1088,7 +1092,7 @@ pub open spec fn dict_at<R: Resolve>(r: &R, e: Env, p: int, d: nat, acc: Map<Seq
         let w = e.buf.subrange(t1.0, t1.1);
         if !(p < t1.1 <= e.buf.len()) { None }
         else if w.len() > 0 && w[0] == 47 {
-            match key_dec(w.subrange(1, w.len() as int)) { None => None, Some(k) =>
+            match name_dec(w.subrange(1, w.len() as int)) { None => None, Some(k) =>   // the key is a name (7.3.7): `#xx` decoded (7.3.5)
                 if !utf8_ok(k) { None } else {
                 match obj_at(r, e, t1.1, d) { None => None, Some(x) =>
                     if !(t1.1 < x.1 <= e.buf.len()) { None } else { dict_at(r, e, x.1, d, acc.insert(k, x.0)) } } } } }
@@ -1106,7 +1110,7 @@ pub open spec fn dict_def<R: Resolve>(r: &R, e: Env, p: int, d: nat, acc: Map<Se
         let w = e.buf.subrange(t1.0, t1.1);
         if !(p < t1.1 <= e.buf.len()) { None }
         else if w.len() > 0 && w[0] == 47 {
-            match key_dec(w.subrange(1, w.len() as int)) { None => None, Some(k) =>
+            match name_dec(w.subrange(1, w.len() as int)) { None => None, Some(k) =>   // the key is a name (7.3.7): `#xx` decoded (7.3.5)
                 if !utf8_ok(k) { None } else {
                 match obj_at(r, e, t1.1, d) { None => None, Some(x) =>
                     if !(t1.1 < x.1 <= e.buf.len()) { None } else { dict_at(r, e, x.1, d, acc.insert(k, x.0)) } } } } }
@@ -1114,6 +1118,30 @@ pub open spec fn dict_def<R: Resolve>(r: &R, e: Env, p: int, d: nat, acc: Map<Se
         else { None }
     } }
 }
+
+/// the object at a token that starts with a SOLIDUS is the name it spells, whatever the context and the nesting budget
+pub proof fn lemma_obj_name<R: Resolve>(r: &R, e: Env, p: int, d: nat)
+    requires 0 <= p <= e.buf.len()
+    ensures match tok(e.buf, p) { None => true, Some(t) => { let w = e.buf.subrange(t.0, t.1);
+        (w.len() > 0 && w[0] == 47) ==> obj_at(r, e, p, d) == (match name_dec(w.subrange(1, w.len() as int)) {
+            Some(n) => if utf8_ok(n) { Some((Val::Name(n), t.1)) } else { None }, None => None }) } }
+{
+    broadcast use {b_tok, b_real_first};
+    lemma_obj_unfold(r, e, p, d);
+    match tok(e.buf, p) { None => {}, Some(t) => {
+        let w = e.buf.subrange(t.0, t.1);
+        if w.len() > 0 && w[0] == 47 {
+            reveal(K_LTLT);
+            assert(K_LTLT()[0] == 60);
+            lemma_real_iso_is_lit(w);
+            assert(sign_len(w) == 0);
+            if is_int_lit(w) { assert(digit(w.subrange(0, w.len() as int)[0])); }
+        }
+    } }
+}
+pub proof fn lemma_name_allowed(n: Seq<u8>)
+    ensures allowed(ParseFlags::NAME, Val::Name(n))
+{ assert(16u16 & 16 != 0) by (bit_vector); }
 
 /// the bit(s) of ParseFlags that the parser consults for a value of this kind (as found in the code: a stream is admitted by
 /// DICT, the STREAM bit is only consulted by Storage::resolve_ref)
@@ -1178,6 +1206,10 @@ pub open spec fn env_of(lexer: &Lexer, ctx: Option<&Context>) -> Env {
 // =====================================================================================================
 impl PdfString {
 //@@ PdfString::new
+}
+impl Primitive {
+// same text and contract as in units/ops (Primitive::into_name/name_only)
+//@@ Primitive::into_name
 }
 impl<'a> Context<'a> {
 //@@ Context::decrypt
